@@ -13,7 +13,7 @@ from sim.engine_d import DOpts
 from sim.oracles import check_ledger_unique, check_no_exec_after_result
 from sim.programs import Program, gen_program
 
-from .common import (absorb, compare_outcome, new_outcome, run_exec, sample_of, swarm_knobs, swarm_opts,
+from .common import (absorb, compare_outcome, new_outcome, ref_unusable, run_exec, sample_of, swarm_knobs, swarm_opts,
                      task_kind)
 
 PROPERTY = "C02"
@@ -83,7 +83,7 @@ def run_one(seed: int, tier: str) -> dict[str, Any]:
     out = new_outcome()
     ch = Choices(seed)
     prog, knobs, opts, ref, run = _flow(ch, tier)
-    if not ref["quiescent"] or ref["errors"]:
+    if ref_unusable(ref, prog):
         out["inconclusive"] += 1
         out["execs"] += 1
         return out
@@ -106,6 +106,6 @@ def run_one(seed: int, tier: str) -> dict[str, Any]:
 def replay_one(rep: dict[str, Any]) -> list[dict[str, Any]]:
     ch = Choices(rep["seed"], replay=rep["trace"])
     prog, knobs, opts, ref, run = _flow(ch, "quick")
-    if not ref["quiescent"] or ref["errors"]:
+    if ref_unusable(ref, prog):
         return []
     return judge(prog, ref, run)
